@@ -48,8 +48,11 @@ LEVEL_TEXT = ("Seeded valid trees (all families, BTree/TreeSet, both "
               "applied through __setstate__ or as a rewrite of the stored "
               "record read by a fresh connection; an independent walker "
               "decides validity; check() and _check() must accept pristine "
-              "trees and, between them, reject every invalid one with "
-              "AssertionError without crashing. Sampling.")
+              "trees -- also freshly loaded by a new connection (every node a "
+              "ghost, the checker being the first thing that touches them) "
+              "and with a seeded subset of nodes evicted -- and, between "
+              "them, reject every invalid one with AssertionError without "
+              "crashing. Sampling.")
 
 KINDS = ["swap-adjacent", "swap-distant", "dup-key", "shift-key-up",
          "shift-key-down", "key-past-bound", "sep-below-left",
